@@ -29,6 +29,15 @@ template <class S, size_t DIM> GridIndexMapping<S, DIM> make_grid(const GridCfg&
 template <class S, size_t DIM> std::string pt(const Eigen::Matrix<S, DIM, 1>& p) { std::vector<long double> v(DIM); for (size_t d = 0; d < DIM; ++d) v[d] = p[d]; return vf::jarr(v); }
 template <size_t DIM> std::string ix(const Eigen::Matrix<size_t, DIM, 1>& p) { std::vector<long double> v(DIM); for (size_t d = 0; d < DIM; ++d) v[d] = (long double)p[d]; return vf::jarr(v); }
 
+// centre of a cell from the definition of the grid, not from the grid's own table (symmetric form: cell (N-1)/2 is centred on 0); the interval
+// form keeps the table (its origin is floor(lower/res) res, checked by C13)
+template <class S, size_t DIM, class I> Eigen::Matrix<S, DIM, 1> cell_centre(GridIndexMapping<S, DIM>& g, const GridCfg& gc, const I& cell) {
+  if (gc.interval) return g.computeCellCenterPosition(cell);
+  auto N = g.getNumberOfCellsAlongAxes(); Eigen::Matrix<S, DIM, 1> p;
+  for (size_t d = 0; d < DIM; ++d) p[d] = (S)(((double)cell[d] - (double)(N[d] - 1) / 2) * (double)g.getCellResolution());
+  return p;
+}
+
 // full oracle for one cast of a fresh caster
 template <class S, size_t DIM>
 bool check_cast(vf::Ctx& c, GridIndexMapping<S, DIM>& g, const Eigen::Matrix<S, DIM, 1>& o, const Eigen::Matrix<S, DIM, 1>& e,
@@ -59,7 +68,7 @@ bool check_cast(vf::Ctx& c, GridIndexMapping<S, DIM>& g, const Eigen::Matrix<S, 
       if (diff != 1) { c.violation("RayCasting.cast.notFaceAdjacent", params(), vf::JO().u("step", k).raw("cell", ix<DIM>(ray[k])).raw("prev", ix<DIM>(ray[k - 1])).done()); return false; }
     }
     // the segment must cross the (tol-inflated) closed cell: slab clipping in long double
-    P ce = g.computeCellCenterPosition(ray[k]);
+    P ce = cell_centre<S, DIM>(g, gc, ray[k]);
     long double t0 = 0, t1 = 1; bool hit = true;
     for (size_t d = 0; d < DIM && hit; ++d) {
       long double lo = (long double)ce[d] - (long double)res / 2 - tol, hi = (long double)ce[d] + (long double)res / 2 + tol;
@@ -71,8 +80,8 @@ bool check_cast(vf::Ctx& c, GridIndexMapping<S, DIM>& g, const Eigen::Matrix<S, 
   }
   // last cell contains the end point (closed, +tol); equals the end point's own cell when the end is not near a border
   {
-    P ce = g.computeCellCenterPosition(ray.back()); bool inside = true, nearBorder = false;
-    P cee = g.computeCellCenterPosition(ie);
+    P ce = cell_centre<S, DIM>(g, gc, ray.back()); bool inside = true, nearBorder = false;
+    P cee = cell_centre<S, DIM>(g, gc, ie);
     for (size_t d = 0; d < DIM; ++d) {
       if (fabsl((long double)e[d] - ce[d]) > (long double)res / 2 + tol) inside = false;
       if (fabsl(fabsl((long double)e[d] - cee[d]) - (long double)res / 2) <= tol) nearBorder = true;
@@ -192,6 +201,46 @@ void sequences(vf::Ctx& c, const char* tname, int depth, size_t firstOp, bool lo
   }
 }
 
+
+// ---- N: rays that pass a few per cent of a cell beside cell corners, from origins all over large grids; long 3D rays ending just inside a cell ----
+template <class S, size_t DIM>
+void near_corner(vf::Ctx& c, const char* tname) {
+  using P = Eigen::Matrix<S, DIM, 1>;
+  for (const GridCfg gc : {GridCfg{0.01, 2001, false, 0, 0}, GridCfg{0.25, 2001, false, 0, 0}, GridCfg{0.1, 201, false, 0, 0}}) {
+    if (DIM == 3 && gc.cells == 2001 && gc.res != 0.01) continue;
+    auto g = make_grid<S, DIM>(gc);
+    auto N = g.getNumberOfCellsAlongAxes(); S res = g.getCellResolution();
+    std::vector<size_t> cellsA = {1, N[0] / 2, N[0] - 11, N[0] - 2}, cellsB = {7, N[1] / 3, N[1] - 9};
+    for (size_t ia : cellsA) for (size_t ib : cellsB) for (int m : {1, 2, 5}) for (double delta : {0.012, -0.012, 0.018, -0.018, 0.004, -0.004}) for (int sx : {1, -1}) for (int sy : {1, -1}) {
+      P o, e;
+      // cell centres from the definition of the symmetric grid (cell (N-1)/2 is centred on 0), not from the grid's own table
+      auto centre = [&](size_t d, size_t i) { return (S)(((double)i - (double)(N[d] - 1) / 2) * gc.res); };
+      o[0] = centre(0, ia); o[1] = centre(1, ib); if (DIM == 3) o[2] = centre(2, N[2] / 2);
+      e = o; e[0] += (S)(sx * m * (double)res * (1 + delta)); e[1] += (S)(sy * m * (double)res); if (DIM == 3) e[2] += (S)(m * (double)res * (1 - delta));
+      bool inside = true; for (size_t d = 0; d < DIM; ++d) { S hi = (S)(gc.res * (gc.cells - 1) / 2); if (e[d] < -hi || e[d] > hi) inside = false; }
+      if (!inside) continue;
+      RayCasting<S, DIM> rc(&g);
+      auto ray = rc.cast(o, e);
+      c.nontrivial();
+      if (!check_cast<S, DIM>(c, g, o, e, ray, tname, gc, "near-corner.cast(o,e)")) return;
+    }
+    if (DIM == 3 && gc.cells == 2001) {   // long rays whose end point lies 1 % inside its cell next to two faces
+      auto centre = [&](size_t d, size_t i) { return (S)(((double)i - (double)(N[d] - 1) / 2) * gc.res); };
+      for (int k = 0; k < 240; ++k) {
+        P o, e; size_t oc[3] = {5 + (size_t)(k % 40), 7 + (size_t)((k * 7) % 50), 9 + (size_t)((k * 3) % 60)}, ec[3] = {1990 - (size_t)((k * 31) % 900), 1985 - (size_t)((k * 17) % 700), 1980 - (size_t)((k * 23) % 800)};
+        for (size_t d = 0; d < 3; ++d) { o[d] = centre(d, oc[d]) + (S)(0.13 * (d + 1) * gc.res); e[d] = centre(d, ec[d]); }
+        // all rays travel towards +x +y +z: the end point sits 1 % (or 0.3 %) inside its cell next to the entry face of one axis and the exit face of another
+        double in = k % 2 ? 0.49 : 0.497; int pat = k % 6;
+        e[0] += (S)((pat == 0 || pat == 3 ? -in : pat == 1 || pat == 4 ? in : 0.3) * gc.res); e[1] += (S)((pat == 1 || pat == 5 ? -in : pat == 2 || pat == 3 ? in : -0.2) * gc.res); e[2] += (S)((pat == 2 || pat == 4 ? -in : pat == 0 || pat == 5 ? in : 0.1) * gc.res);
+        RayCasting<S, DIM> rc(&g);
+        auto ray = rc.cast(o, e);
+        c.nontrivial();
+        if (!check_cast<S, DIM>(c, g, o, e, ray, tname, gc, "long-ray.cast(o,e)")) return;
+      }
+    }
+  }
+}
+
 const GridCfg kGrids2[] = {{0.1, 21, false, 0, 0}, {0.25, 21, false, 0, 0}, {1, 21, false, 0, 0}, {0.01, 201, false, 0, 0}, {0.1, 201, false, 0, 0}, {1, 201, false, 0, 0},
                            {0.1, 0, true, -3.37, 5.81}, {0.3, 0, true, -7.1, -0.45}, {0.01, 2001, false, 0, 0}, {0.25, 2001, false, 0, 0}, {1, 2001, false, 0, 0}};
 const GridCfg kGrids3[] = {{0.1, 21, false, 0, 0}, {1, 21, false, 0, 0}, {0.25, 101, false, 0, 0}, {0.1, 0, true, -3.37, 5.81}, {0.01, 201, false, 0, 0}, {1, 201, false, 0, 0}};
@@ -208,6 +257,7 @@ const std::vector<Case>& cases(bool th) {
   }
   for (int t = 0; t < 4; ++t) for (size_t f = 0; f < 34; ++f) v.push_back({1, t, 0, 0, 0, th ? 4 : 3, f});
   for (int t = 0; t < 4; ++t) v.push_back({1, t, 0, 0, 0, -1, 0});   // deviation-bounded long run
+  for (int t = 0; t < 4; ++t) v.push_back({2, t, 0, 0, 0, 0, 0});    // near-corner rays and long 3D rays
   return v;
 }
 const char* kT[] = {"double2", "double3", "float2", "float3"};
@@ -230,6 +280,8 @@ void vf_run(uint64_t idx, const std::string& tier, vf::Ctx& c) {
       case 2: lattice<float, 2>(c, kT[2], kGrids2[k.grid], k.block, k.nblocks); break;
       case 3: lattice<float, 3>(c, kT[3], kGrids3[k.grid], k.block, k.nblocks); break;
     }
+  } else if (k.kind == 2) {
+    switch (k.type) { case 0: near_corner<double, 2>(c, kT[0]); break; case 1: near_corner<double, 3>(c, kT[1]); break; case 2: near_corner<float, 2>(c, kT[2]); break; default: near_corner<float, 3>(c, kT[3]); }
   } else {
     switch (k.type) {
       case 0: sequences<double, 2>(c, kT[0], k.depth, k.firstOp, k.depth < 0); break;
@@ -246,6 +298,7 @@ std::string vf_describe(const std::string& tier) {
   o.str("grids_2d", th ? "res{0.1,0.25,1}x21, res{0.01,0.1,1}x201, two interval-form grids, res{0.01,0.25,1}x2001 cells/axis" : "res{0.1,0.25,1}x21, res{0.01,0.1,1}x201 cells/axis, two interval-form grids with unaligned bounds");
   o.str("grids_3d", th ? "res{0.1,1}x21, 0.25x101, interval form, res{0.01,1}x201" : "res{0.1,1}x21, 0.25x101, interval form");
   o.str("points", "2D: cells {0,1,N/4,N/2,N-2,N-1} x sub-cell offsets {-1/2 (border),-1/4,0 (centre),+1/4} per axis; 3D: cells {0,N/2,N-1} x {-1/2,0,+1/4}; plus border -+ max(res/2^17, 4ulp) for cells {1,N/2} (3D: N/2); all origin x end pairs (generic, axis-aligned, diagonal through corners, coincident)");
+  o.str("near_corner_rays", "grids 0.01x2001, 0.25x2001 (2D), 0.1x201: origins at the centres of cells {1,N/2,N-11,N-2} x {7,N/3,N-9}, end = origin + m res ((1+d), 1 [, 1-d]) for m in {1,2,5}, d in {+-0.004,+-0.012,+-0.018}, all sign combinations (rays passing a few per cent of a cell beside the corners); 3D 0.01x2001: 240 rays of 3000-5500 cells ending 1 % / 0.3 % inside a cell next to the entry face of one axis and the exit face of another");
   o.str("fresh_caster_forms", "constructed on the grid / default-constructed then setGridIndexMapping / used on another grid then moved (rotating over the origin-end pairs)");
   o.str("tolerance", "(cells visited + 4) ulp(max(range,|coord|)) + 4 ulp(|coord|): worst-case accumulation of tMax += tDelta");
   o.i("sequence_depth", th ? 4 : 3).str("sequence_ops", "setOriginPoint(p0..3), setEndPoint(p0..3), cast(p), cast(p,q), cast(), next(), setGridIndexMapping(A|B), assign to another long-lived caster and continue with it, continue with a copy = 34 ops (two grids of different resolution); all sequences, all four instantiations; differential oracle vs fresh caster + full geometric oracle; plus a fixed script of 30 operations and every variant with ONE position replaced by any operation");
